@@ -70,12 +70,177 @@ template<class G> static void gd_t(const G& g, const Geo& q, int kind, bool am, 
   bool pairok; int w = written(o, pairok);
   Rec r; r.str("e", "gd").i("kind", kind).b("am", am).i("om", om).b("ret", !std::isnan(ret)).i("w", w).b("pairok", pairok); r.emit();
 }
-template<class G> static void gi_t(const G& g, const Geo& q, int kind, int om) {
+// value residuals |v - ref| in units of 1e-16 of scale (NaN against NaN is 0, NaN against a number is "huge")
+static long long rel(double v, double ref, double scale) {
+  if (std::isnan(v) || std::isnan(ref)) return std::isnan(v) && std::isnan(ref) ? 0 : 2000000001LL;
+  return vt::q1(fabsl((long double)v - ref) / scale, 1e-16L);
+}
+static long long angrel(double v, double ref) { return vt::q1(fabsl(remainderl((long double)v - ref, 360.0L)), 1e-16L * 360); }   // NaN -> "huge"
+// the same where NaN is a documented result (rhumb line over a pole): NaN against NaN is 0
+static long long angrelN(double v, double ref) { return std::isnan(v) && std::isnan(ref) ? 0 : angrel(v, ref); }
+static const double PI_ = 3.14159265358979323846;
+// the inputs of a record as text (for replay by hand; the trace spec does not read it)
+static string inputs(std::initializer_list<double> v) { string s; char b[40]; for (double x : v) { snprintf(b, 40, "%.17g", x); if (!s.empty()) s += ' '; s += b; } return s; }
+
+// GenInverse with mask om into sentinels: written set, and the residual of every written value against the call with mask ALL
+// d = [s12, azi1, azi2, m12, M12, M21, S12]
+template<class G> static void inv_fill(const G& g, double a, double lat1, double lon1, double lat2, double lon2, int om, Rec& r) {
   double s12 = vt::sentinel(13), a1 = vt::sentinel(12), a2 = vt::sentinel(22), m12 = vt::sentinel(14), M12 = vt::sentinel(15), M21 = vt::sentinel(16), S12 = vt::sentinel(17);
-  double ret = g.GenInverse(q.lat1, q.lon1, q.lat2, q.lon2, tomask<G>(om), s12, a1, a2, m12, M12, M21, S12);
+  double ret = g.GenInverse(lat1, lon1, lat2, lon2, tomask<G>(om), s12, a1, a2, m12, M12, M21, S12);
   int w = 0; bool pa = !vt::is_sentinel(a1, 12), pb = !vt::is_sentinel(a2, 22), pm = !vt::is_sentinel(M12, 15), pn = !vt::is_sentinel(M21, 16);
-  if (pa) w |= 4; if (!vt::is_sentinel(s12, 13)) w |= 8; if (!vt::is_sentinel(m12, 14)) w |= 32; if (pm) w |= 64; if (!vt::is_sentinel(S12, 17)) w |= 128;
-  Rec r; r.str("e", "gi").i("kind", kind).i("om", om).b("ret", !std::isnan(ret)).i("w", w).b("pairok", pa == pb && pm == pn); r.emit();
+  bool ps = !vt::is_sentinel(s12, 13), pr = !vt::is_sentinel(m12, 14), pS = !vt::is_sentinel(S12, 17);
+  if (pa) w |= 4; if (ps) w |= 8; if (pr) w |= 32; if (pm) w |= 64; if (pS) w |= 128;
+  double R[7]; double rret = g.GenInverse(lat1, lon1, lat2, lon2, G::ALL, R[0], R[1], R[2], R[3], R[4], R[5], R[6]);
+  double area = 4 * PI_ * a * a;
+  vector<long long> d(7, 0);
+  if (ps) d[0] = rel(s12, R[0], a); if (pa) d[1] = angrel(a1, R[1]); if (pb) d[2] = angrel(a2, R[2]); if (pr) d[3] = rel(m12, R[3], a);
+  if (pm) d[4] = rel(M12, R[4], 1); if (pn) d[5] = rel(M21, R[5], 1); if (pS) d[6] = rel(S12, R[6], area);
+  r.i("om", om).b("ret", !std::isnan(ret)).i("w", w).b("pairok", pa == pb && pm == pn).li("d", d).i("dret", rel(ret, rret, 360));
+}
+template<class G> static void gi_t(const G& g, const Geo& q, int kind, int om, const string& cls = "") {
+  Rec r; r.str("e", "gi").i("kind", kind); if (!cls.empty()) r.str("cls", cls);
+  inv_fill(g, q.a, q.lat1, q.lon1, q.lat2, q.lon2, om, r); r.emit();
+}
+
+// one fixed input per end-point class of the inverse problem (the classes are enumerated by MC_GeodLine)
+static const double WA = 6378137.0, WF = 1 / 298.257223563;
+static bool gi_class(const string& c, Geo& q) {
+  static const struct { const char* n; Geo q; } tab[] = {
+    {"generic", {WA, WF, 40.64, -73.78, 0, 1.36, 103.99}},
+    {"generic-swapped", {WA, WF, 1.36, 103.99, 0, 40.64, -73.78}},
+    {"coincident", {WA, WF, 40.64, -73.78, 0, 40.64, -73.78}},
+    {"short", {WA, WF, 40.64, -73.78, 0, 40.6400005, -73.7800005}},            // about 0.07 m
+    {"short-swapped", {WA, WF, 40.6400005, -73.7800005, 0, 40.64, -73.78}},
+    {"merid", {WA, WF, 10.0, 20.0, 0, 40.0, 20.0}},
+    {"merid-long", {WA, WF, -30.0, 20.0, 0, 80.0, 20.0}},
+    {"merid-pole", {WA, WF, -30.0, 20.0, 0, 85.0, -160.0}},
+    {"equatorial", {WA, WF, 0.0, 10.0, 0, 0.0, 150.0}},
+    {"equatorial-far", {WA, WF, 0.0, 10.0, 0, 0.0, -170.5}},                   // both on the equator, the geodesic is not equatorial
+    {"equatorial-prolate", {6.4e6, -0.01, 0.0, 10.0, 0, 0.0, 150.0}},
+    {"antipodal", {WA, WF, 30.0, 0.0, 0, -29.9, 179.8}},
+    {"antipodal-exact", {WA, WF, 30.0, 0.0, 0, -30.0, 180.0}},
+    {"pole-pole", {WA, WF, 90.0, 0.0, 0, -90.0, 50.0}},
+    {"prolate-merid", {6.4e6, -0.01, -30.0, 20.0, 0, 85.0, -160.0}},
+    {"prolate-antipodal", {6.4e6, -0.01, 30.0, 0.0, 0, -30.0, 179.9}},
+    {"sphere", {6.4e6, 0.0, 40.64, -73.78, 0, 1.36, 103.99}},
+  };
+  for (auto& t : tab) if (c == t.n) { q = t.q; return true; }
+  return false;
+}
+
+// Rhumb::GenInverse with mask om: written set and residuals [s12, azi12, S12] against mask ALL
+static void rinv_fill(const Rhumb& rh, double lat1, double lon1, double lat2, double lon2, int om, Rec& r, const char* wk, const char* dk) {
+  double s12 = vt::sentinel(13), azi = vt::sentinel(12), S12 = vt::sentinel(17);
+  rh.GenInverse(lat1, lon1, lat2, lon2, rmask(om), s12, azi, S12);
+  double Rs, Ra, RS; rh.GenInverse(lat1, lon1, lat2, lon2, Rhumb::ALL, Rs, Ra, RS);
+  double a = rh.EquatorialRadius(), area = 4 * PI_ * a * a;
+  int w = 0; vector<long long> d(3, 0);
+  if (!vt::is_sentinel(s12, 13)) { w |= 8; d[0] = rel(s12, Rs, a); } if (!vt::is_sentinel(azi, 12)) { w |= 4; d[1] = angrelN(azi, Ra); }   // pole to the same pole: NaN
+  if (!vt::is_sentinel(S12, 17)) { w |= 128; d[2] = rel(S12, RS, area); }
+  r.i(wk, w).li(dk, d);
+}
+static void ri_class(const string& c, int ex, int om) {
+  static const struct { const char* n; double p[4]; } tab[] = {
+    {"generic", {40, -70, 50, 30}}, {"north", {40, -70, 90, 30}}, {"south", {-90, -70, 50, 30}}, {"poles", {-90, 10, 90, 60}},
+    {"meridian", {40, -70, 50, -70}}, {"parallel", {40, -70, 40, 30}}, {"coincident", {40, -70, 40, -70}}, {"antimeridian", {40, -70, 50, 110}},
+    {"pole-coincident", {90, 10, 90, 60}},
+  };
+  for (auto& t : tab) if (c == t.n) {
+    Rhumb rr(WA, WF, ex == 1);
+    Rec r; r.str("e", "ri").str("cls", c).b("exact", ex == 1).i("om", om);
+    rinv_fill(rr, t.p[0], t.p[1], t.p[2], t.p[3], om, r, "w", "d"); r.emit(); return;
+  }
+  Rec r; r.str("e", "ri-unknown-class").str("cls", c); r.emit();
+}
+
+// ------------------------------------------------------------------ inline overloads
+// calls overload (fam, n) with sentinel-filled arguments; o.v = lat2 lon2 azi2 s12 m12 M12 M21 S12, a1 = azi1 of the inverse problem
+template<class G> static double ov_solver(const G& g, const Geo& q, const string& fam, int n, Out& o, double& a1, bool& known) {
+  double* v = o.v; const double s = 1.5e6, arc = 15.0; known = true;
+  if (fam == "Direct") switch (n) {
+    case 2: return g.Direct(q.lat1, q.lon1, q.azi1, s, v[0], v[1]);
+    case 3: return g.Direct(q.lat1, q.lon1, q.azi1, s, v[0], v[1], v[2]);
+    case 4: return g.Direct(q.lat1, q.lon1, q.azi1, s, v[0], v[1], v[2], v[4]);
+    case 5: return g.Direct(q.lat1, q.lon1, q.azi1, s, v[0], v[1], v[2], v[5], v[6]);
+    case 6: return g.Direct(q.lat1, q.lon1, q.azi1, s, v[0], v[1], v[2], v[4], v[5], v[6]);
+    case 7: return g.Direct(q.lat1, q.lon1, q.azi1, s, v[0], v[1], v[2], v[4], v[5], v[6], v[7]);
+  }
+  if (fam == "ArcDirect") switch (n) {
+    case 2: g.ArcDirect(q.lat1, q.lon1, q.azi1, arc, v[0], v[1]); return 0;
+    case 3: g.ArcDirect(q.lat1, q.lon1, q.azi1, arc, v[0], v[1], v[2]); return 0;
+    case 4: g.ArcDirect(q.lat1, q.lon1, q.azi1, arc, v[0], v[1], v[2], v[3]); return 0;
+    case 5: g.ArcDirect(q.lat1, q.lon1, q.azi1, arc, v[0], v[1], v[2], v[3], v[4]); return 0;
+    case 6: g.ArcDirect(q.lat1, q.lon1, q.azi1, arc, v[0], v[1], v[2], v[3], v[5], v[6]); return 0;
+    case 7: g.ArcDirect(q.lat1, q.lon1, q.azi1, arc, v[0], v[1], v[2], v[3], v[4], v[5], v[6]); return 0;
+    case 8: g.ArcDirect(q.lat1, q.lon1, q.azi1, arc, v[0], v[1], v[2], v[3], v[4], v[5], v[6], v[7]); return 0;
+  }
+  if (fam == "Inverse") switch (n) {
+    case 1: return g.Inverse(q.lat1, q.lon1, q.lat2, q.lon2, v[3]);
+    case 2: return g.Inverse(q.lat1, q.lon1, q.lat2, q.lon2, a1, v[2]);
+    case 3: return g.Inverse(q.lat1, q.lon1, q.lat2, q.lon2, v[3], a1, v[2]);
+    case 4: return g.Inverse(q.lat1, q.lon1, q.lat2, q.lon2, v[3], a1, v[2], v[4]);
+    case 5: return g.Inverse(q.lat1, q.lon1, q.lat2, q.lon2, v[3], a1, v[2], v[5], v[6]);
+    case 6: return g.Inverse(q.lat1, q.lon1, q.lat2, q.lon2, v[3], a1, v[2], v[4], v[5], v[6]);
+    case 7: return g.Inverse(q.lat1, q.lon1, q.lat2, q.lon2, v[3], a1, v[2], v[4], v[5], v[6], v[7]);
+  }
+  known = false; return 0;
+}
+template<class L> static double ov_line(const L& l, const string& fam, int n, Out& o, bool& known) {
+  double* v = o.v; const double s = 1.5e6, arc = 15.0; known = true;
+  if (fam == "Position") switch (n) {
+    case 2: return l.Position(s, v[0], v[1]);
+    case 3: return l.Position(s, v[0], v[1], v[2]);
+    case 4: return l.Position(s, v[0], v[1], v[2], v[4]);
+    case 5: return l.Position(s, v[0], v[1], v[2], v[5], v[6]);
+    case 6: return l.Position(s, v[0], v[1], v[2], v[4], v[5], v[6]);
+    case 7: return l.Position(s, v[0], v[1], v[2], v[4], v[5], v[6], v[7]);
+  }
+  if (fam == "ArcPosition") switch (n) {
+    case 2: l.ArcPosition(arc, v[0], v[1]); return 0;
+    case 3: l.ArcPosition(arc, v[0], v[1], v[2]); return 0;
+    case 4: l.ArcPosition(arc, v[0], v[1], v[2], v[3]); return 0;
+    case 5: l.ArcPosition(arc, v[0], v[1], v[2], v[3], v[4]); return 0;
+    case 6: l.ArcPosition(arc, v[0], v[1], v[2], v[3], v[5], v[6]); return 0;
+    case 7: l.ArcPosition(arc, v[0], v[1], v[2], v[3], v[4], v[5], v[6]); return 0;
+    case 8: l.ArcPosition(arc, v[0], v[1], v[2], v[3], v[4], v[5], v[6], v[7]); return 0;
+  }
+  known = false; return 0;
+}
+template<class G, class L> static void ov_t(const G& g, const Geo& q, const string& fam, int n, int kind, int caps) {
+  Out o = sentinels(), R; double a1 = vt::sentinel(22), ret, rref, Ra1 = 0; bool known;
+  bool am = fam == "ArcDirect" || fam == "ArcPosition", inv = fam == "Inverse", line = fam == "Position" || fam == "ArcPosition";
+  if (line) { L l = g.Line(q.lat1, q.lon1, q.azi1, tomask<G>(caps)); ret = ov_line(l, fam, n, o, known); }
+  else ret = ov_solver(g, q, fam, n, o, a1, known);
+  // reference: the general routine with mask ALL (for the line families on a line with all capabilities)
+  if (inv) { R.v[0] = R.v[1] = 0; rref = g.GenInverse(q.lat1, q.lon1, q.lat2, q.lon2, G::ALL, R.v[3], Ra1, R.v[2], R.v[4], R.v[5], R.v[6], R.v[7]); }
+  else rref = g.GenDirect(q.lat1, q.lon1, q.azi1, am, am ? 15.0 : 1.5e6, G::ALL, R.v[0], R.v[1], R.v[2], R.v[3], R.v[4], R.v[5], R.v[6], R.v[7]);
+  bool pk; int w = written(o, pk); bool pa = !vt::is_sentinel(a1, 22);
+  if (inv) pk = pk && pa == ((w & 4) != 0);
+  const double area = 4 * PI_ * q.a * q.a; const double sc[8] = {1, 1, 1, q.a, q.a, 1, 1, area};
+  vector<long long> d(8, 0);
+  for (int i = 0; i < 8; ++i) if (!vt::is_sentinel(o.v[i], 10 + i)) d[i] = i <= 2 ? angrel(o.v[i], R.v[i]) : rel(o.v[i], R.v[i], sc[i]);
+  Rec r; r.str("e", "ov").str("fam", fam).i("n", n).i("kind", kind).i("caps", caps).b("known", known)
+    .b("ret", am ? true : !std::isnan(ret)).i("w", w).b("pairok", pk).li("d", d).i("da", pa ? angrel(a1, Ra1) : 0)
+    .i("dret", am || std::isnan(ret) ? 0 : rel(ret, rref, 360));
+  r.emit();
+}
+static void ov_rhumb(const Geo& q, const string& fam, int n, int kind, int caps) {
+  Rhumb rh(q.a, q.f, kind == 1); Out o = sentinels(), R; bool known = n == 2 || n == 3; double* v = o.v; double a1 = vt::sentinel(22), Ra1 = 0;
+  const double s = 1.5e6; for (int i = 0; i < 8; ++i) R.v[i] = 0;
+  if (fam == "RDirect") { if (n == 2) rh.Direct(q.lat1, q.lon1, q.azi1, s, v[0], v[1]); else if (n == 3) rh.Direct(q.lat1, q.lon1, q.azi1, s, v[0], v[1], v[7]);
+    rh.GenDirect(q.lat1, q.lon1, q.azi1, s, Rhumb::ALL, R.v[0], R.v[1], R.v[7]); }
+  else if (fam == "RPosition") { RhumbLine l = rh.Line(q.lat1, q.lon1, q.azi1); if (n == 2) l.Position(s, v[0], v[1]); else if (n == 3) l.Position(s, v[0], v[1], v[7]);
+    rh.GenDirect(q.lat1, q.lon1, q.azi1, s, Rhumb::ALL, R.v[0], R.v[1], R.v[7]); }
+  else if (fam == "RInverse") { if (n == 2) rh.Inverse(q.lat1, q.lon1, q.lat2, q.lon2, v[3], a1); else if (n == 3) rh.Inverse(q.lat1, q.lon1, q.lat2, q.lon2, v[3], a1, v[7]);
+    rh.GenInverse(q.lat1, q.lon1, q.lat2, q.lon2, Rhumb::ALL, R.v[3], Ra1, R.v[7]); }
+  else known = false;
+  bool pk; int w = written(o, pk); bool pa = !vt::is_sentinel(a1, 22); if (pa) w |= 4;
+  const double area = 4 * PI_ * q.a * q.a; const double sc[8] = {1, 1, 1, q.a, q.a, 1, 1, area};
+  vector<long long> d(8, 0);
+  for (int i = 0; i < 8; ++i) if (!vt::is_sentinel(o.v[i], 10 + i)) d[i] = i <= 2 ? angrel(o.v[i], R.v[i]) : rel(o.v[i], R.v[i], sc[i]);
+  Rec r; r.str("e", "ov").str("fam", fam).i("n", n).i("kind", kind).i("caps", caps).b("known", known)
+    .b("ret", true).i("w", w).b("pairok", pk).li("d", d).i("da", pa ? angrel(a1, Ra1) : 0).i("dret", 0);
+  r.emit();
 }
 
 static void rhumb_ops(const string& op, int om) {
@@ -84,10 +249,7 @@ static void rhumb_ops(const string& op, int om) {
     rh.GenDirect(40.0, -70.0, 60.0, 2.0e6, rmask(om), lat2, lon2, S12);
     int w = 0; if (!vt::is_sentinel(lat2, 10)) w |= 1; if (!vt::is_sentinel(lon2, 11)) w |= 2; if (!vt::is_sentinel(S12, 17)) w |= 128;
     Rec r; r.str("e", "rd").i("om", om).i("w", w); r.emit(); }
-  else if (op == "ri") { double s12 = vt::sentinel(13), azi = vt::sentinel(12), S12 = vt::sentinel(17);
-    rh.GenInverse(40.0, -70.0, 50.0, 30.0, rmask(om), s12, azi, S12);
-    int w = 0; if (!vt::is_sentinel(azi, 12)) w |= 4; if (!vt::is_sentinel(s12, 13)) w |= 8; if (!vt::is_sentinel(S12, 17)) w |= 128;
-    Rec r; r.str("e", "ri").i("om", om).i("w", w); r.emit(); }
+  else if (op == "ri") { Rec r; r.str("e", "ri").i("om", om); rinv_fill(rh, 40.0, -70.0, 50.0, 30.0, om, r, "w", "d"); r.emit(); }
   else if (op == "rdp" || op == "rlp") {   // the course runs over the pole: latitude defined, longitude and area NaN - but only requested outputs are written
     for (int ex = 0; ex < 2; ++ex) { Rhumb rr(6378137.0, 1 / 298.257223563, ex == 1); double lat2 = vt::sentinel(10), lon2 = vt::sentinel(11), S12 = vt::sentinel(17);
       if (op == "rdp") rr.GenDirect(60.0, 10.0, 20.0, 8.0e6, rmask(om), lat2, lon2, S12); else { RhumbLine l = rr.Line(0.0, 10.0, 0.0); l.GenPosition(10001966.0, rmask(om), lat2, lon2, S12); }
@@ -112,6 +274,17 @@ static void replay() {
       int kind = atoi(t[1].c_str()); bool am = atoi(t[2].c_str()) != 0; int om = atoi(t[3].c_str()); const Geo& q = GEOS[om % 3];
       if (t[0] == "gd") { if (kind == 0) gd_t(Geodesic(q.a, q.f), q, 0, am, om); else if (kind == 1) gd_t(GeodesicExact(q.a, q.f), q, 1, am, om); else gd_t(Geodesic(q.a, q.f, true), q, 2, am, om); }
       else { if (kind == 0) gi_t(Geodesic(q.a, q.f), q, 0, om); else if (kind == 1) gi_t(GeodesicExact(q.a, q.f), q, 1, om); else gi_t(Geodesic(q.a, q.f, true), q, 2, om); }
+    } else if (t[0] == "gic") {   // gic class kind om
+      Geo q; int kind = atoi(t[2].c_str()), om = atoi(t[3].c_str());
+      if (!gi_class(t[1], q)) { Rec r; r.str("e", "gi-unknown-class").str("cls", t[1]); r.emit(); continue; }
+      if (kind == 0) gi_t(Geodesic(q.a, q.f), q, 0, om, t[1]); else if (kind == 1) gi_t(GeodesicExact(q.a, q.f), q, 1, om, t[1]); else gi_t(Geodesic(q.a, q.f, true), q, 2, om, t[1]);
+    } else if (t[0] == "ric") ri_class(t[1], atoi(t[2].c_str()), atoi(t[3].c_str()));
+    else if (t[0] == "ov") {      // ov family n kind caps
+      string fam = t[1]; int n = atoi(t[2].c_str()), kind = atoi(t[3].c_str()), caps = atoi(t[4].c_str()); const Geo& q = GEOS[(caps + n + kind) % 3];
+      if (fam[0] == 'R') ov_rhumb(q, fam, n, kind, caps);
+      else if (kind == 0) ov_t<Geodesic, GeodesicLine>(Geodesic(q.a, q.f), q, fam, n, 0, caps);
+      else if (kind == 1) ov_t<GeodesicExact, GeodesicLineExact>(GeodesicExact(q.a, q.f), q, fam, n, 1, caps);
+      else ov_t<Geodesic, GeodesicLine>(Geodesic(q.a, q.f, true), q, fam, n, 2, caps);
     } else if (t[0] == "rd" || t[0] == "ri" || t[0] == "rl" || t[0] == "rdp" || t[0] == "rlp") rhumb_ops(t[0], atoi(t[1].c_str()));
     else if (t[0] == "uninit") {
       GeodesicLine l0; GeodesicLineExact l1; Out o = sentinels();
@@ -123,12 +296,6 @@ static void replay() {
 }
 
 // ------------------------------------------------------------------ value laws
-static long long rel(double v, double ref, double scale) {   // |v - ref| / scale in units of 1e-16
-  if (std::isnan(v) || std::isnan(ref)) return std::isnan(v) && std::isnan(ref) ? 0 : 2000000001LL;
-  return vt::q1(fabsl((long double)v - ref) / scale, 1e-16L);
-}
-static long long angrel(double v, double ref) { return vt::q1(fabsl(remainderl((long double)v - ref, 360.0L)), 1e-16L * 360); }
-
 template<class G, class L> static void laws_t(const G& g, vt::Rng& rg, int kind, double a) {
   double lat1 = rg.uni(-90, 90), lon1 = rg.uni(-180, 180), azi1 = rg.uni(-180, 180);
   int w = int(rg.range(0, 7)); if (w == 0) azi1 = 90.0 * double(rg.range(-2, 2)); if (w == 1) lat1 = rg.coin() ? 90 : -90; if (w == 2) lat1 = 0;
@@ -159,6 +326,23 @@ template<class G, class L> static void laws_t(const G& g, vt::Rng& rg, int kind,
     double c = cos(lat2 * 3.14159265358979 / 180); double coslat = c < 1e-9 ? 0 : c;
     r.li("ad", {rel(la, lat2, 1), vt::q1(fabsl(remainderl((long double)lo - lon2, 360.0L)) * coslat, 1e-16L * 360), rel(a12b, a12, 360)});
   }
+  // LONG_UNROLL: the unrolled longitude wraps to the longitude returned without LONG_UNROLL (the reference Rn is computed WITHOUT the
+  // bit, by the other formula), and lon2 - lon1 is the accumulated change of longitude along the geodesic (sub-steps of <= 30 degrees
+  // of arc on the reference line, each longitude taken without LONG_UNROLL).  u = [line mod 360, GenDirect mod 360, line turns, GenDirect turns]
+  { Out Rn; ref.GenPosition(am, sa, G::ALL, Rn.v[0], Rn.v[1], Rn.v[2], Rn.v[3], Rn.v[4], Rn.v[5], Rn.v[6], Rn.v[7]);
+    vector<long long> u(4, 0);
+    Out q = sentinels(); g.GenDirect(lat1, lon1, azi1, am, sa, tomask<G>(om), q.v[0], q.v[1], q.v[2], q.v[3], q.v[4], q.v[5], q.v[6], q.v[7]);
+    if (om & 256) {
+      double a12t = am ? sa : rref; int k = int(ceil(fabs(a12t) / 30.0)); if (k < 1) k = 1;
+      long double acc = 0; double prev = lon1;
+      for (int j = 1; j <= k; ++j) { double la, lo, t; ref.GenPosition(true, a12t * j / k, G::LATITUDE | G::LONGITUDE, la, lo, t, t, t, t, t, t);
+        acc += remainderl((long double)lo - prev, 360.0L); prev = lo; }
+      if (!vt::is_sentinel(o.v[1], 11)) { u[0] = angrel(o.v[1], Rn.v[1]); u[2] = vt::q1(fabsl((long double)o.v[1] - lon1 - acc), 1e-9L); }
+      if (!vt::is_sentinel(q.v[1], 11)) { u[1] = angrel(q.v[1], Rn.v[1]); u[3] = vt::q1(fabsl((long double)q.v[1] - lon1 - acc), 1e-9L); }
+    }
+    // guards (from the inputs / the reference point): Clairaut constant |sin azi1| cos lat1 (how close the geodesic comes to a pole), cos lat2
+    r.li("u", u).i("cl", vt::q1(fabs(sin(azi1 * PI_ / 180)) * cos(lat1 * PI_ / 180), 1e-9L)).i("c2", vt::q1(cos(Rn.v[0] * PI_ / 180), 1e-9L));
+  }
   // third point: a line made by DirectLine / ArcDirectLine / InverseLine reproduces the point that defined it
   { double lat2, lon2, azi2, s12, t; ref.GenPosition(am, sa, G::ALL, lat2, lon2, azi2, s12, t, t, t, t);
     double sdist = am ? s12 : sa;
@@ -168,18 +352,88 @@ template<class G, class L> static void laws_t(const G& g, vt::Rng& rg, int kind,
     r.li("tp", {rel(la, lat2, 1), vt::q1(fabsl(remainderl((long double)lo - lon2, 360.0L)) * coslat, 1e-16L * 360),
                 rel(la2, lat2, 1), vt::q1(fabsl(remainderl((long double)lo2 - lon2, 360.0L)) * coslat, 1e-16L * 360),
                 rel(dl.Distance(), sdist, b)});
+    // InverseLine through the same two points: Position(Distance()) and ArcPosition(Arc()) give point 2; Distance(), Arc(), Azimuth()
+    // are s12, a12, azi1 of the inverse problem
+    double s12i, azi1i, azi2i; double a12i = g.Inverse(lat1, lon1, lat2, lon2, s12i, azi1i, azi2i);
+    L il = g.InverseLine(lat1, lon1, lat2, lon2);
+    double lb, lob; il.Position(il.Distance(), lb, lob); double lb2, lob2; il.ArcPosition(il.Arc(), lb2, lob2);
+    r.li("tpi", {rel(lb, lat2, 1), vt::q1(fabsl(remainderl((long double)lob - lon2, 360.0L)) * coslat, 1e-16L * 360),
+                 rel(lb2, lat2, 1), vt::q1(fabsl(remainderl((long double)lob2 - lon2, 360.0L)) * coslat, 1e-16L * 360),
+                 rel(il.Distance(), s12i, b), rel(il.Arc(), a12i, 360), angrel(il.Azimuth(), azi1i)});
+    // the constructors echo point 1
+    r.li("echo", {rel(dl.Latitude(), lat1, 1), angrel(dl.Longitude(), lon1), angrel(dl.Azimuth(), azi1),
+                  rel(il.Latitude(), lat1, 1), angrel(il.Longitude(), lon1), rel(line.Latitude(), lat1, 1), angrel(line.Longitude(), lon1), angrel(line.Azimuth(), azi1)});
   }
   r.emit();
 }
 
+// inverse problem: written set and values for a random mask against mask ALL
+template<class G> static void inv_t(const G& g, vt::Rng& rg, int kind, double a) {
+  double lat1 = rg.uni(-90, 90), lon1 = rg.uni(-180, 180), lat2 = rg.uni(-90, 90), lon2 = rg.uni(-180, 180);
+  int cls = int(rg.range(0, 9));
+  if (cls == 1) lon2 = rg.coin() ? lon1 : lon1 + 180;                                   // meridional
+  else if (cls == 2) { lat1 = 0; lat2 = 0; }                                           // both on the equator
+  else if (cls == 3) { lat2 = -lat1 + rg.uni(-0.5, 0.5); lon2 = lon1 + 180 + rg.uni(-1, 1); }   // nearly antipodal
+  else if (cls == 4) { lat2 = lat1 + rg.uni(-1e-6, 1e-6); lon2 = lon1 + rg.uni(-1e-6, 1e-6); }  // short (down to the short-line exit)
+  else if (cls == 5) { if (rg.coin()) lat1 = rg.coin() ? 90 : -90; else lat2 = rg.coin() ? 90 : -90; }
+  else if (cls == 6) { lat2 = lat1; lon2 = lon1; }                                      // coincident
+  else if (cls == 7) { lat2 = -lat1; lon2 = lon1 + 180; }                               // antipodal
+  if (lat2 > 90) lat2 = 90; if (lat2 < -90) lat2 = -90;
+  int om = int(rg.range(0, 511));
+  Rec r; r.str("e", "inv").i("kind", kind).i("cls", cls).str("in", inputs({a, g.Flattening(), lat1, lon1, lat2, lon2}));
+  inv_fill(g, a, lat1, lon1, lat2, lon2, om, r);
+  r.emit();
+}
+
+// rhumb lines: written sets and values of Rhumb::GenDirect, RhumbLine::GenPosition, Rhumb::GenInverse for a random mask against ALL
+static void rval_t(vt::Rng& rg) {
+  bool ex = rg.coin();
+  double a = rg.coin() ? 6378137.0 : 6.4e6, f = rg.pick(vector<double>{0, 1 / 298.257223563, -1 / 298.257223563, 0.005, -0.005});
+  Rhumb rh(a, f, ex);
+  double lat1 = rg.uni(-90, 90), lon1 = rg.uni(-180, 180), azi = rg.uni(-180, 180), s12 = rg.uni(-2e7, 2e7);
+  int w = int(rg.range(0, 9));
+  if (w == 0) azi = 90.0 * double(rg.range(-2, 2)); if (w == 1) lat1 = rg.coin() ? 90 : -90; if (w == 2) lat1 = 0;
+  if (w == 3) lon1 = (rg.coin() ? 180 : -180) + rg.uni(-1, 1); if (w == 4) lon1 = rg.uni(-540, 540); if (w == 5) s12 = rg.uni(-1, 1);
+  if (w == 6) { azi = (rg.coin() ? 90 : -90) + rg.uni(-2, 2); s12 = rg.uni(-1e8, 1e8); }   // many turns
+  int om = int(rg.range(0, 511));
+  const double area = 4 * PI_ * a * a;
+  double Rlat, Rlon, RS; rh.GenDirect(lat1, lon1, azi, s12, Rhumb::ALL, Rlat, Rlon, RS);
+  double Ulat, Ulon, US; rh.GenDirect(lat1, lon1, azi, s12, Rhumb::ALL | Rhumb::LONG_UNROLL, Ulat, Ulon, US);
+  Rec r; r.str("e", "rval").b("exact", ex).i("om", om).i("cls", w);
+  // the unrolled and the wrapped reference; turns = size of the unrolled longitude in circles (round-off scale of lon2)
+  r.i("turns", std::isnan(Ulon) ? 1 : (long long)fmin(1e6, ceil(fabs(Ulon) / 360) + 1)).b("over", std::isnan(Rlon)).b("ps", fabs(lat1) == 90);
+  r.li("ru", {rel(Ulat, Rlat, 1), angrelN(Ulon, Rlon), rel(US, RS, area)});
+  { double lat2 = vt::sentinel(10), lon2 = vt::sentinel(11), S12 = vt::sentinel(17);
+    rh.GenDirect(lat1, lon1, azi, s12, rmask(om), lat2, lon2, S12);
+    int wd = 0; vector<long long> d(3, 0);
+    if (!vt::is_sentinel(lat2, 10)) { wd |= 1; d[0] = rel(lat2, Rlat, 1); } if (!vt::is_sentinel(lon2, 11)) { wd |= 2; d[1] = angrelN(lon2, Rlon); }
+    if (!vt::is_sentinel(S12, 17)) { wd |= 128; d[2] = rel(S12, RS, area); }
+    r.i("wd", wd).li("dd", d); }
+  { RhumbLine l = rh.Line(lat1, lon1, azi); double lat2 = vt::sentinel(10), lon2 = vt::sentinel(11), S12 = vt::sentinel(17);
+    l.GenPosition(s12, rmask(om), lat2, lon2, S12);
+    int wl = 0; vector<long long> d(3, 0);
+    if (!vt::is_sentinel(lat2, 10)) { wl |= 1; d[0] = rel(lat2, Rlat, 1); } if (!vt::is_sentinel(lon2, 11)) { wl |= 2; d[1] = angrelN(lon2, Rlon); }
+    if (!vt::is_sentinel(S12, 17)) { wl |= 128; d[2] = rel(S12, RS, area); }
+    r.i("wl", wl).li("dl", d); }
+  { double lat2 = Rlat, lon2 = Rlon; if (std::isnan(lat2) || std::isnan(lon2) || rg.range(0, 3) == 0) { lat2 = rg.uni(-90, 90); lon2 = rg.uni(-180, 180); if (rg.range(0, 5) == 0) lat2 = rg.coin() ? 90 : -90; }
+    rinv_fill(rh, lat1, lon1, lat2, lon2, om, r, "wi", "di"); r.str("in", inputs({a, f, lat1, lon1, azi, s12, lat2, lon2})); }
+  r.emit();
+}
+
 static void record(uint64_t seed, long long n) {
-  vt::Rng rg(seed);
+  vt::Rng rg(seed), rgi(seed ^ 0x5bd1e995f00dULL), rgr(seed ^ 0x27d4eb2f1657ULL);   // separate streams: the val records do not depend on the others
   for (long long it = 0; it < n; ++it) {
     int kind = int(it % 3);
     double a = rg.coin() ? 6378137.0 : 6.4e6, f = rg.pick(vector<double>{0, 1 / 298.257223563, -1 / 298.257223563, 0.01, -0.01});
     if (kind == 0) laws_t<Geodesic, GeodesicLine>(Geodesic(a, f), rg, 0, a);
     else if (kind == 1) laws_t<GeodesicExact, GeodesicLineExact>(GeodesicExact(a, f), rg, 1, a);
     else laws_t<Geodesic, GeodesicLine>(Geodesic(a, f, true), rg, 2, a);
+    if (it % 2 == 0) {   // inverse problem, the solver kinds in turn
+      int k2 = int((it / 2) % 3);
+      double a2 = rgi.coin() ? 6378137.0 : 6.4e6, f2 = rgi.pick(vector<double>{0, 1 / 298.257223563, -1 / 298.257223563, 0.01, -0.01});
+      if (k2 == 0) inv_t(Geodesic(a2, f2), rgi, 0, a2); else if (k2 == 1) inv_t(GeodesicExact(a2, f2), rgi, 1, a2); else inv_t(Geodesic(a2, f2, true), rgi, 2, a2);
+    }
+    if (it % 4 == 1) rval_t(rgr);
   }
 }
 
